@@ -11,6 +11,8 @@ import (
 	"reflect"
 	"sort"
 	"strings"
+	"sync"
+	"sync/atomic"
 	"time"
 
 	"vfkit"
@@ -188,10 +190,54 @@ func (g *vfGen) xhtml() string {
 	return sb.String()
 }
 
+// vfForeignKindNames: element names under which an extension is registered for messages or presences but nothing
+// is registered for IQs. A generic Node so named inside an IQ is just a generic node - but a registry that
+// forgets the stanza kind in a lookup (a cache keyed by name only, say) is seen afterwards by the messages and
+// presences that carry the real extension.
+var vfForeignKindUsed int64
+var vfForeignKindOnce sync.Once
+var vfForeignKindList []xml.Name
+
+func vfForeignKindNames() []xml.Name {
+	vfForeignKindOnce.Do(func() { vfForeignKindList = vfForeignKindScan() })
+	return vfForeignKindList
+}
+
+func vfForeignKindScan() []xml.Name {
+	var out []xml.Name
+	TypeRegistry.msgTypesLock.RLock()
+	defer TypeRegistry.msgTypesLock.RUnlock()
+	for k, store := range TypeRegistry.msgTypes {
+		if k.packetType == PKTIQ {
+			continue
+		}
+		for local := range store {
+			if local == "*" {
+				continue
+			}
+			if iqs, ok := TypeRegistry.msgTypes[registryKey{PKTIQ, k.namespace}]; ok {
+				if _, clash := iqs[local]; clash {
+					continue
+				}
+				if _, clash := iqs["*"]; clash {
+					continue
+				}
+			}
+			out = append(out, xml.Name{Space: k.namespace, Local: local})
+		}
+	}
+	sort.Slice(out, func(i, j int) bool { return out[i].Space+out[i].Local < out[j].Space+out[j].Local })
+	return out
+}
+
 func (g *vfGen) node(depth int) Node {
 	n := Node{XMLName: xml.Name{Space: "urn:vf:n" + vfkit.Plain(g.r, 1+g.r.Intn(3)), Local: vfkit.NCName(g.r)}}
 	if g.r.Intn(4) == 0 {
 		n.XMLName.Space = "urn:vf:shared"
+	}
+	if fk := vfForeignKindNames(); depth == 1 && len(fk) > 0 && g.r.Intn(8) == 0 {
+		n.XMLName = fk[g.r.Intn(len(fk))]
+		atomic.AddInt64(&vfForeignKindUsed, 1)
 	}
 	na := g.r.Intn(3)
 	used := map[string]bool{}
